@@ -159,7 +159,7 @@ def _run(ctx, s_jobs, g_jobs, quick_cap=None):
     """s_jobs: [(cfg, consts, required_actions)], g_jobs: [("exh"|"sim", cfg, n, depth, consts)] -> behaviours"""
     jobs = []
     for cfg, consts, req in s_jobs:
-        jobs.append((_mc, (cfg,), {"consts": consts}))
+        jobs.append((_mc, (cfg,), {"consts": consts, "workers": 1 if ctx.quick else (4 if len(s_jobs) == 1 else 2)}))
     for i, g in enumerate(g_jobs):
         if g[0] == "exh":
             jobs.append((_gen, (g[1],), {"consts": g[4], "workers": 1}))
@@ -177,7 +177,22 @@ def _run(ctx, s_jobs, g_jobs, quick_cap=None):
     return behs
 
 
-def _finish(ctx, behs, rule, extra_samples=()):
+def _require(behs, ops_ok, errs):
+    """non-vacuity of G: these instruction kinds must have executed successfully, these failure classes must be predicted"""
+    done, seen = set(), set()
+    for b in behs:
+        for t in b["txs"]:
+            upto = len(t["ins"]) if t["ok"] else min(t["fail"], len(t["ins"]))
+            done.update(i["op"] for i in t["ins"][:upto])
+            if not t["ok"]:
+                seen.add(t["err"])
+    missing = (set(ops_ok) - done) | {"error:" + e for e in set(errs) - seen}
+    if missing:
+        raise ToolError("vacuous behaviour set: never exercised %s" % sorted(missing))
+
+
+def _finish(ctx, behs, rule, extra_samples=(), ops_ok=(), errs=()):
+    _require(behs, ops_ok, errs)
     mism, stats = _replay(ctx, behs)
     st = _selftest(ctx, behs)
     txs, okc, errs, ops = _summ(behs, stats)
@@ -209,7 +224,11 @@ def C09(ctx):
                    "kinds) built with ManifestBuilder and executed by LedgerSimulator; compared: commit success/failure, error class "
                    "(%(classes)d classes predicted), index of the failing instruction (prefix probing), every account vault balance / id "
                    "set, total supplies and non-fungible data read from the database. %(ok)d of %(txs)d transactions commit successfully. "
-                   "distinct = distinct manifests with >= 2 instructions")
+                   "distinct = distinct manifests with >= 2 instructions",
+                   ops_ok=["Withdraw", "WithdrawNF", "TakeFromWorktop", "TakeNF", "TakeAll", "ReturnToWorktop", "Deposit", "DepositBatch",
+                           "Mint", "MintNF", "Burn", "AssertContains", "AssertAny", "AssertNF"],
+                   errs=["WorktopInsufficient", "AssertionFailed", "BucketNotFound", "DropNonEmptyBucket", "OrphanedNodes",
+                         "InsufficientBalance", "InvalidAmount", "MissingId"])
 
 
 def C03(ctx):
@@ -229,7 +248,10 @@ def C03(ctx):
                   "an untracked resource of divisibility 0 and a non-fungible resource; the predicted balance of EVERY account vault and "
                   "every TotalSupply field (absent for the untracked resource) is compared with the database after every transaction, "
                   "so a balance and its event changing consistently is still seen. distinct = distinct manifests/histories with >= 2 instructions",
-                  extra_samples=[lambda b: any(i["op"] in ("Mint", "Burn", "Recall") for i in b["txs"][-1]["ins"]) and b["txs"][-1]["ok"]])
+                  extra_samples=[lambda b: any(i["op"] in ("Mint", "Burn", "Recall") for i in b["txs"][-1]["ins"]) and b["txs"][-1]["ok"]],
+                  ops_ok=["Mint", "MintNF", "Burn", "BurnInAccount", "BurnNFInAccount", "Recall", "RecallNF", "Withdraw", "WithdrawNF",
+                          "Deposit", "DepositBatch"],
+                  errs=["InsufficientBalance", "InvalidAmount", "DropNonEmptyBucket"])
     _trace_supply(ctx, res, conservation=True)
     return res
 
@@ -239,7 +261,7 @@ def C10(ctx):
     behs = _run(ctx,
                 [("MCLedgerProofs", {"MaxInstr": 5 if q else 8}, PROOF_OPS),
                  ("MCLedgerProofsNF", {"MaxInstr": 4 if q else 6}, PROOF_OPS_NF)],
-                [("exh", "GenLedgerTinyProofs", 0, 0, None),
+                [("exh", "GenLedgerTinyProofs", 0, 0, None), ("exh", "GenLedgerTinyBucketProofs", 0, 0, None),
                  ("sim", "SimLedgerProofs", 1500 if q else 25000, 14, None)] +
                 ([] if q else [("sim", "SimLedgerFG", 4000, 12, None), ("sim", "SimLedgerH", 3000, 14, None)]),
                 quick_cap=1200)
@@ -249,10 +271,15 @@ def C10(ctx):
                    "2 proof names, 2 auth-zone slots) LocksMatchProofs (locks of a container = live proofs on it), ProofBacked (the proven "
                    "amount/ids stay in the named container), TotalUnchangedByLocks (max-of-locks accounting), OnlyLiquidLeaves, "
                    "UnlockedIsLiquid, NoLocksOutsideTx, DivisibilityState/Args. G: %(n)d model manifests (all manifests of <= 3 proof "
-                   "instructions of a tiny instance + seeded manifests of up to 10 instructions weighted towards overlapping proofs; "
+                   "instructions of a tiny account-proof instance and of <= 5 instructions of a tiny bucket-proof instance + seeded manifests of up to 10 instructions weighted towards overlapping proofs; "
                    "divisibility 2 and 0 with amounts of one digit too many, thorough: also 18) executed on the real ledger: outcome, error class, failing index "
                    "and all balances compared. %(ok)d of %(txs)d commit. distinct = distinct manifests with >= 2 instructions",
-                   extra_samples=[lambda b: sum(1 for i in b["txs"][-1]["ins"] if "Proof" in i["op"]) >= 3])
+                   extra_samples=[lambda b: sum(1 for i in b["txs"][-1]["ins"] if "Proof" in i["op"]) >= 3],
+                   ops_ok=["ProofOfAmount", "ProofOfNF", "BucketProofOfAmount", "BucketProofOfAll", "BucketProofOfNF", "PopFromAuthZone",
+                           "PushToAuthZone", "CloneProof", "DropProof", "DropAllProofs", "DropNamedProofs", "DropAuthZoneRegularProofs",
+                           "Withdraw", "WithdrawNF", "Recall", "BurnInAccount", "TakeFromWorktop", "TakeAll", "ReturnToWorktop", "Deposit"],
+                   errs=["InsufficientBalance", "BucketLocked", "InvalidAmount", "EmptyProofNotAllowed", "MissingId", "ProofNotFound",
+                         "AuthZoneIsEmpty", "Unauthorized"])
 
 
 def C43(ctx):
@@ -272,7 +299,10 @@ def C43(ctx):
                    "histories of 4 transactions) replayed on the real ledger; after every transaction the data entry of every id of the "
                    "universe is read back (live with fields / locked tombstone / absent), with vault id sets and supplies. "
                    "distinct = distinct histories with >= 2 instructions",
-                   extra_samples=[lambda b: any(t["err"] == "KeyValueEntryLocked" for t in b["txs"])])
+                   extra_samples=[lambda b: any(t["err"] == "KeyValueEntryLocked" for t in b["txs"])],
+                   ops_ok=["MintNF", "MintRuid", "Burn", "BurnNFInAccount", "UpdateNFData", "DepositBatch", "TakeAll", "WithdrawNF"],
+                   errs=["NonFungibleAlreadyExists", "KeyValueEntryLocked", "NonFungibleNotFound", "UnknownMutableFieldName",
+                         "NonFungibleIdTypeDoesNotMatch", "InvalidNonFungibleIdType", "MissingId"])
 
 
 def C04(ctx):
@@ -286,7 +316,9 @@ def C04(ctx):
                   "(recorded supply = sum of all vaults incl. locked parts after every history), InTxSupply, NonNegative, "
                   "CommittedIsPre, NoLocksOutsideTx. G: %(n)d model histories (%(txs)d transactions, %(ok)d committed successfully) replayed; "
                   "after EVERY transaction every vault balance field, every non-fungible vault's amount field AND its id index, and every "
-                  "TotalSupply field are compared with the model. distinct = distinct histories with >= 2 instructions")
+                  "TotalSupply field are compared with the model. distinct = distinct histories with >= 2 instructions",
+                  ops_ok=["Withdraw", "WithdrawNF", "Mint", "MintNF", "Burn", "BurnInAccount", "Recall", "Deposit", "DepositBatch", "TakeAll"],
+                  errs=["InsufficientBalance", "DropNonEmptyBucket"])
     _trace_supply(ctx, res, conservation=False)
     return res
 
